@@ -10,6 +10,7 @@
 //!   F path              a file of /verif (corpus)
 //!   K index             an extreme constant expression in one of the compile-time-evaluated positions
 //!   A index             an attribute spelling in front of one kind of declaration or statement
+//!   Q seed              a macro program of the C12 generator
 //!   X hex               the entry file given byte for byte
 //! Output: OK n | ERR <first line> | PANIC <file>: <message> ; the supervisor adds ABORT <status> and TIMEOUT.
 use crate::common::*;
@@ -339,6 +340,15 @@ pub fn input_of(w: &[&str]) -> Option<Input> {
         ("S", 2) => plain(skeleton(w[1].parse().ok()?)),
         ("K", 2) => plain(const_probe(w[1].parse().ok()?)?),
         ("A", 2) => plain(attr_probe(w[1].parse().ok()?)?),
+        ("Q", 2) => {
+            // a macro program of the C12 generator (definitions, invocations with right and wrong argument counts,
+            // ## pastes, redefinitions, include graphs); the API defines are written as #define lines in front
+            let (files, api) = crate::c12::program_files(w[1].parse().ok()?)?;
+            let mut text = String::new();
+            for (n, v) in &api { text += &format!("#define {} {}\n", n, v); }
+            text += &files[0].1;
+            Some(Input { entry: files[0].0.clone(), text, root: None, extra: files[1..].to_vec(), defines: false })
+        }
         ("F", 2) => {
             let root = std::env::var("RSSL_VERIF").unwrap_or("/verif".into());
             plain(std::fs::read_to_string(format!("{}/{}", root, w[1])).ok()?)
@@ -407,6 +417,7 @@ pub fn gen_cases(seed: u64, n: usize, thorough: bool) -> Vec<String> {
     }
     for i in 0..(CONST_EXPRS.len() * 8) { out.push(format!("{} K {}", cfg(&mut rng), i)); }
     for i in 0..(ATTRS.len() * ATTR_POSITIONS.len()) { out.push(format!("{} A {}", cfg(&mut rng), i)); }
+    for _ in 0..(n * 6).max(300) { out.push(format!("{} Q {}", cfg(&mut rng), rng.below(1 << 40))); }
     for _ in 0..n {
         out.push(format!("{} B {} {}", cfg(&mut rng), rng.below(1 << 40), rng.range(1, 4096)));
         out.push(format!("{} T {} {}", cfg(&mut rng), rng.below(1 << 40), rng.range(1, 4096)));
